@@ -6,35 +6,52 @@
 (* <<property id, predicate name>>.                                         *)
 (***************************************************************************)
 EXTENDS Naturals, Integers, Sequences, FiniteSets, SequencesExt,
-        FiniteSetsExt, Functions, TLC, Text, Vlq, SMap, Sem
+        FiniteSetsExt, Functions, TLC, Text, Vlq, SMap, Sem, Attr
 
 NREG == 16
 EmptyHeap == [i \in 0..(NREG - 1) |-> Nil]
 
-InitState == [heap |-> EmptyHeap]
+NoObs == [x \in {} |-> 0]
+InitState == [heap |-> EmptyHeap, obs |-> NoObs]
+
+Put(f, k, v) == [x \in DOMAIN f \cup {k} |-> IF x = k THEN v ELSE f[x]]
+
+(* key under which the answer of an observer call is remembered             *)
+ObsKey(r) ==
+  CASE r.op = "source" -> <<r.r, "source">>
+    [] r.op = "map" -> <<r.r, "map", r.columns>>
+    [] r.op = "stream" -> <<r.r, "stream", r.columns, r.final>>
+    [] OTHER -> <<r.r, r.op>>
 
 Ok(r) == r.oc = "ok"
 
 -----------------------------------------------------------------------------
 (* actions                                                                  *)
+Forget(obs, reg) == [k \in {x \in DOMAIN obs : x[1] # reg} |-> obs[k]]
+
 NextState(r, st) ==
   CASE r.op = "begin" -> InitState
     [] r.op = "build" /\ Ok(r) ->
-         [st EXCEPT !.heap[r.dst] = Close(r.tree, st.heap)]
+         [st EXCEPT !.heap[r.dst] = Close(r.tree, st.heap),
+                    !.obs = Forget(@, r.dst)]
     [] r.op = "clone" /\ Ok(r) ->
-         [st EXCEPT !.heap[r.dst] = st.heap[r.src]]
+         [st EXCEPT !.heap[r.dst] = st.heap[r.src],
+                    !.obs = Forget(@, r.dst)]
     [] r.op = "replace" /\ Ok(r) ->
          [st EXCEPT !.heap[r.r].repls =
             Append(@, [s |-> r.s, e |-> r.e, c |-> r.c, n |-> r.n,
-                       enf |-> r.enf, api |-> r.api])]
+                       enf |-> r.enf, api |-> r.api]),
+                    !.obs = Forget(@, r.r)]
     [] r.op = "add" /\ Ok(r) ->
          LET t == st.heap[r.r]
              a == Close(r.tree, st.heap)
-         IN [st EXCEPT !.heap[r.r] =
+         IN [st EXCEPT !.obs = Forget(@, r.r), !.heap[r.r] =
                IF "adds" \in DOMAIN t
                  THEN [t EXCEPT !.adds = Append(@, a)]
                  ELSE [x \in DOMAIN t \cup {"adds"} |->
                          IF x = "adds" THEN <<a>> ELSE t[x]]]
+    [] r.op \in {"source", "map", "stream"} /\ Ok(r) ->
+         [st EXCEPT !.obs = Put(@, ObsKey(r), r.out)]
     [] OTHER -> st
 
 -----------------------------------------------------------------------------
@@ -69,6 +86,71 @@ AnnounceOK(evs) ==
 
 MapOf(r) == r.out.map[1]
 
+
+-----------------------------------------------------------------------------
+(* "law" records carry no call: they ask for a comparison of answers that   *)
+(* were recorded earlier in the same program.                               *)
+SeenStream(r, st) == st.obs[<<r.r, "stream", r.columns, FALSE>>]
+Seen(st, reg, kind) == st.obs[<<reg, kind>>]
+SeenMap(st, reg, columns) == st.obs[<<reg, "map", columns>>].map
+HasSeen(st, key) == key \in DOMAIN st.obs
+
+(* offsets of the children of a concatenation inside its text               *)
+ChildOffsets(texts) ==
+  FoldLeft(LAMBDA acc, t : <<Append(acc[1], acc[2]), acc[2] + Len(t)>>,
+           <<<<>>, 0>>, texts)[1]
+
+(* C06, columns = false: the first mapped child piece on each output line   *)
+ExpectedConcatLines(childMaps, texts) ==
+  LET whole == Concat(texts)
+      pt == PosTable(whole)
+      offs == ChildOffsets(texts)
+      \* for child k: per child line j, <<output line, attribution>>
+      pieces(k) ==
+        LET la == LineAttrsOfOptMap(childMaps[k], texts[k])
+        IN [j \in 1..Len(la) |-> <<pt[offs[k] + 1][1] + j - 1, la[j]>>]
+      all == Concat([k \in 1..Len(texts) |-> pieces(k)])
+  IN [ln \in 1..NumLines(whole) |->
+        LET c == {i \in 1..Len(all) : all[i][1] = ln /\ all[i][2][1]}
+        IN IF c = {} THEN LineOnly(Unmapped) ELSE all[Min(c)][2]]
+
+LawChecks(r, st) ==
+  CASE r.law = "same" /\ AsciiConsistent(st.heap[r.a]) /\ AsciiConsistent(st.heap[r.b]) ->
+         {<<"C13", "same_text">>, <<"C13", "same_attribution_columns">>,
+          <<"C13", "same_attribution_lines">>}
+    [] r.law = "concat_children" /\ AsciiConsistent(st.heap[r.r]) ->
+         {<<"C06", "concat_keeps_child_attribution">>,
+          <<"C06", "concat_lines_first_mapped_piece">>}
+    [] OTHER -> {}
+
+LawHolds(c, r, st) ==
+  CASE c = <<"C13", "same_text">> ->
+         Seen(st, r.a, "source").t = Seen(st, r.b, "source").t
+    [] c = <<"C13", "same_attribution_columns">> ->
+         LET text == Seen(st, r.a, "source").t
+         IN SameCore(ByteAttrsOfOptMap(SeenMap(st, r.a, TRUE), text),
+                     ByteAttrsOfOptMap(SeenMap(st, r.b, TRUE), text))
+    [] c = <<"C13", "same_attribution_lines">> ->
+         LET text == Seen(st, r.a, "source").t
+         IN LineAttrsOfOptMap(SeenMap(st, r.a, FALSE), text)
+              = LineAttrsOfOptMap(SeenMap(st, r.b, FALSE), text)
+    [] c = <<"C06", "concat_keeps_child_attribution">> ->
+         LET n == Len(r.children)
+             texts == [k \in 1..n |-> Seen(st, r.children[k], "source").t]
+             whole == ByteAttrsOfOptMap(SeenMap(st, r.r, TRUE), Concat(texts))
+             offs == ChildOffsets(texts)
+         IN /\ Seen(st, r.r, "source").t = Concat(texts)
+            /\ \A k \in 1..n :
+                 LET own == ByteAttrsOfOptMap(SeenMap(st, r.children[k], TRUE), texts[k])
+                 IN \A i \in 1..Len(texts[k]) :
+                      Full(whole[offs[k] + i]) = Full(own[i])
+    [] c = <<"C06", "concat_lines_first_mapped_piece">> ->
+         LET n == Len(r.children)
+             texts == [k \in 1..n |-> Seen(st, r.children[k], "source").t]
+             maps == [k \in 1..n |-> SeenMap(st, r.children[k], FALSE)]
+         IN LineAttrsOfOptMap(SeenMap(st, r.r, FALSE), Concat(texts))
+              = ExpectedConcatLines(maps, texts)
+
 -----------------------------------------------------------------------------
 (* which predicates apply to a record                                       *)
 TreeOf(r, st) == st.heap[r.r]
@@ -100,11 +182,19 @@ Checks(r, st) ==
               \cup (IF dom /\ r.final THEN {<<"C02", "final_positions_in_text">>} ELSE {})
               \cup (IF dom THEN {<<"C11", "announce_before_use">>} ELSE {})
       [] r.op = "map" ->
-           IF AsciiConsistent(TreeOf(r, st)) /\ r.out.map # <<>>
-             THEN {<<"C11", "map_charset">>, <<"C11", "map_well_formed">>,
-                   <<"C11", "map_strictly_increasing">>,
-                   <<"C11", "map_inside_text">>, <<"C11", "map_indices_in_tables">>}
-             ELSE {}
+           LET dom == AsciiConsistent(TreeOf(r, st))
+               seen == <<r.r, "stream", r.columns, FALSE>> \in DOMAIN st.obs
+           IN (IF dom /\ r.out.map # <<>>
+                 THEN {<<"C11", "map_charset">>, <<"C11", "map_well_formed">>,
+                       <<"C11", "map_strictly_increasing">>,
+                       <<"C11", "map_inside_text">>, <<"C11", "map_indices_in_tables">>}
+                 ELSE {})
+              \cup (IF dom /\ seen
+                      THEN {<<"C03", "none_iff_no_mapped_chunk">>,
+                            IF r.columns THEN <<"C03", "map_equals_stream_columns">>
+                                         ELSE <<"C03", "map_equals_stream_lines">>}
+                      ELSE {})
+      [] r.op = "law" -> LawChecks(r, st)
       [] OTHER -> {}
 
 -----------------------------------------------------------------------------
@@ -152,9 +242,51 @@ Holds(c, r, st) ==
              end == EndPos(TextOf(t))
          IN \A i \in 1..Len(segs) :
               segs[i].gl >= 1 /\ PosLt(<<segs[i].gl, segs[i].gc>>, end)
+    [] c = <<"C03", "none_iff_no_mapped_chunk">> ->
+         LET chunks == StreamChunks(SeenStream(r, st).ev)
+             segs == IF r.out.map = <<>> THEN <<>> ELSE DecodeMappings(MapOf(r).m)
+         IN /\ r.out.map = <<>> => ~AnyChunkMapped(chunks)
+            /\ ~AnyChunkMapped(chunks) => ~HasMapped(segs)
+    [] c = <<"C03", "map_equals_stream_columns">> ->
+         LET chunks == StreamChunks(SeenStream(r, st).ev)
+         IN SameCore(ByteAttrsOfOptMap(r.out.map, StreamText(chunks)),
+                     ByteAttrsOfStream(chunks))
+    [] c = <<"C03", "map_equals_stream_lines">> ->
+         LET chunks == StreamChunks(SeenStream(r, st).ev)
+         IN LineAttrsOfOptMap(r.out.map, StreamText(chunks)) = LineAttrsOfStream(chunks)
+    [] c[1] \in {"C13", "C06", "C08"} /\ r.op = "law" -> LawHolds(c, r, st)
     [] c = <<"C11", "map_indices_in_tables">> ->
          LET m == MapOf(r)
              segs == DecodeMappings(m.m)
          IN \A i \in 1..Len(segs) :
               segs[i].si < Len(m.sources) /\ segs[i].ni < Len(m.names)
+
+-----------------------------------------------------------------------------
+(* Known-finding classes.  A failing check is only ever DOWNGRADED to a     *)
+(* KNOWN-FINDING line when known_findings.json lists the class returned     *)
+(* here with status "known"; the class must describe the failing shape      *)
+(* narrowly, so that any other violation is still reported.                 *)
+RECURSIVE CachedBeneathReplace(_)
+CachedBeneathReplace(t) ==
+  CASE t.k = "replace" -> "cached" \in Kinds(t.inner) \/ CachedBeneathReplace(t.inner)
+    [] t.k = "concat" ->
+         LET ch == Children(t) IN \E i \in 1..Len(ch) : CachedBeneathReplace(ch[i])
+    [] t.k \in {"cached", "box"} -> CachedBeneathReplace(t.inner)
+    [] OTHER -> FALSE
+
+(* two attribution sequences that differ at most in the original column     *)
+OnlyColumnsDiffer(as, bs) ==
+  /\ Len(as) = Len(bs)
+  /\ \A i \in 1..Len(as) :
+       <<as[i].m, as[i].f, as[i].l, as[i].hn, as[i].n>>
+         = <<bs[i].m, bs[i].f, bs[i].l, bs[i].hn, bs[i].n>>
+
+KF(c, r, st) ==
+  CASE c = <<"C03", "map_equals_stream_columns">> ->
+         LET chunks == StreamChunks(SeenStream(r, st).ev)
+         IN IF CachedBeneathReplace(TreeOf(r, st))
+               /\ OnlyColumnsDiffer(ByteAttrsOfOptMap(r.out.map, StreamText(chunks)),
+                                    ByteAttrsOfStream(chunks))
+              THEN "cached-beneath-replace-column" ELSE ""
+    [] OTHER -> ""
 =============================================================================
